@@ -42,7 +42,7 @@ REQUIRED_OBS = {'meshes_checked': 100, 'eval:C22:in-first-BZ': 100, 'eval:C22:fu
                 'eval:C22:invariant-average': 500, 'mesh:even': 10, 'mesh:odd': 10, 'mesh:anisotropic': 20, 'dim2_meshes': 20,
                 'dim3_meshes': 20, 'reduced_smaller': 50, 'folded_points': 100, 'boundary_points': 20, 'nonzero_averages': 100, 'sheared_cells': 8, 'low_symmetry_on_symmetric_lattice': 10,
                 'directed_pairs': 2000, 'directed_lattices': 100, 'directed:orthoF-aniso': 500, 'directed:orthoI-aniso': 500,
-                'directed:tric-aniso': 500, 'directed_mesh:anisotropic': 1500, 'directed_folded_points': 1000, 'pairs_needing_2_sweeps': 100, 'pairs_needing_3_sweeps': 10, 'points_needing_3_sweeps': 10}
+                'directed:tric-aniso': 500, 'directed:tric-unreduced': 400, 'directed_mesh:anisotropic': 1500, 'directed_folded_points': 1000, 'pairs_needing_2_sweeps': 100, 'pairs_needing_3_sweeps': 10, 'points_needing_3_sweeps': 10}
 CASE_TIMEOUT = 600
 EXTRA_KINDS = ('strainF', 'strainI', 'strainH3', 'strainH2')
 LOWSYM_KINDS = ('cubicP', 'cubicF', 'cubicI', 'tetP', 'ortho', 'hex', 'square', 'rect', 'hex2', 'crect')
@@ -125,7 +125,7 @@ def rand_mesh(rng, dim, maxpts):
     return [2] * dim
 
 
-DIRECTED_KINDS = ('orthoF-aniso', 'orthoI-aniso', 'tric-aniso')
+DIRECTED_KINDS = ('orthoF-aniso', 'orthoI-aniso', 'tric-aniso', 'tric-unreduced')
 
 
 def aniso_lattice(rng, kind):
@@ -171,15 +171,24 @@ def sweeps_needed(kraw, BZG, maxsweeps=12):
 def run_directed(case, mon, rng, crystal):
     """Cheap clauses on many (anisotropic low-symmetry 3-D lattice, mesh) pairs."""
     sample = None
-    big = 5
+    big = 7
     Gidx = np.array([m for m in itertools.product(range(-big, big + 1), repeat=3) if any(m)])
     for kl in range(case['nlatt']):
         kind = DIRECTED_KINDS[(kl + case['idx']) % len(DIRECTED_KINDS)]
-        L0 = aniso_lattice(rng, kind)
+        L0 = aniso_lattice(rng, 'tric-aniso' if kind == 'tric-unreduced' else kind)
         if rng.uniform() < 0.4: L0 = pg.random_rotation(rng, 3) @ L0
         crys = None
         with mon.guard('C22:construct'):
             crys = crystal.Crystal(L0, [[np.zeros(3)]])
+            if kind == 'tric-unreduced':
+                # the reduced cell with one or two elementary shears, taken as given (noreduce=True, the default of fromdict / YAML input):
+                # the shortest reciprocal vector is then a combination of the reciprocal basis vectors
+                M = np.eye(3, dtype=int)
+                for _ in range(int(rng.integers(1, 3))):
+                    a, b = rng.choice(3, size=2, replace=False)
+                    E = np.eye(3, dtype=int); E[a, b] = int(rng.choice([-1, 1]))
+                    M = M @ E
+                crys = crystal.Crystal(np.array(crys.lattice) @ M, [[np.zeros(3)]], noreduce=True)
         if crys is None: continue
         L = np.array(crys.lattice, dtype=float)
         B = 2 * np.pi * np.linalg.inv(L).T
